@@ -18,4 +18,5 @@ case "${1:-mod}" in
   mod)  for cfg in "0 0" "1 0" "1 1"; do set -- $cfg; echo "--- SLOW=$1 FIXMOD=$2"; SLOW=$1 FIXMOD=$2 launch /venv/bin/python C08_mod_nopc.py 3; done;;
   roll) for cfg in "0 0" "1 0" "1 1"; do set -- $cfg; echo "--- SLOW=$1 FIXROLL=$2"; SLOW=$1 FIXROLL=$2 launch python3-vt C08_np_roll_nopc.py 3; done;;
   pow)  launch python3-vt C18_np_pow_mask.py 7;;
+  transfer) launch /venv/bin/python C07_transfer_nonreceiver.py 3;;
 esac
